@@ -23,8 +23,8 @@ logging.getLogger("onnx_ir").setLevel(logging.ERROR)
 PROPERTY = "C11"
 LEVEL = "exploration"
 TIERS = {
-    "quick": {"wall": 35, "chunk": 200, "shrink_budget": 500, "shrink_wall": 60},
-    "thorough": {"wall": 600, "chunk": 1000, "shrink_budget": 1000, "shrink_wall": 240},
+    "quick": {"wall": 25, "optimize_wall": 10, "chunk": 200, "shrink_budget": 500, "shrink_wall": 60},
+    "thorough": {"wall": 600, "optimize_wall": 120, "chunk": 1000, "shrink_budget": 1000, "shrink_wall": 240},
 }
 RULE = (
     "each run = one seeded interleaving: 0-12 initial nodes (some owning nested bodies, with data dependencies so that sort reorders) in a "
